@@ -18,6 +18,7 @@ def Kind.okB (k : Kind) (x : Rat) : Bool :=
   | .cont lb ub =>
     (match lb with | some l => decide (l ≤ x) | none => true) &&
     (match ub with | some u => decide (x ≤ u) | none => true)
+  | .int ub => x.den == 1 && decide (0 ≤ x) && decide (x ≤ (ub : Rat))
 
 def LinCon.holdsB {V : Type} (c : LinCon V) (σ : V → Rat) : Bool := decide (c.holds σ)
 
